@@ -1128,8 +1128,10 @@ def rule_complete(env, shared):
                     continue
                 n += 1
                 fs = [tuple(m.canon(x) if isinstance(x, tuple) else x for x in f) for f in fs0]
-                okk = any(f[0] == "le" and len(f) == 3 and f[1] == Lc and f[2][0] == "atomic" and f[2][1] == "fetch_add"
-                          for f in fs)
+                # ... or under LEN <= a value *loaded* from the position counter: the counter never decreases on a pull
+                # path (ATOM), so nothing inside the source is reserved on this path at all
+                okk = any(f[0] == "le" and len(f) == 3 and f[1] == Lc and f[2][0] == "atomic" and f[2][1] in ("fetch_add", "load")
+                          and R.classify(f[2][2])[0] == "pos" for f in fs)
                 if not okk:
                     bad = b.file_line(b.term(bi)["loc"])
         if n == 0 or bad:
